@@ -434,18 +434,51 @@ def check_two_ended_candidates(ctx, F, tag):
                    "initial `%s` is Some(inner item) or falls back on `%s`: fallback present %s; other values %s" % (second, first, fallback, bad))
             ctx.count("two-ended-candidate-sites" + tag)
             continue
-        # stores through &mut self
+        # stores through &mut self; a stored value that is chosen among several (`x = if .. { a } else { b }`, `a.or(b)`) is
+        # followed to the values it is chosen from
+        def kinds_of_rvalue(bi, rv, depth, under_or):
+            if rv["r"] == "use":
+                q = rv["o"].get("m") or rv["o"].get("c")
+                if q is not None and not q["p"] and not (1 <= q["l"] <= b.nargs) and depth < 8:
+                    return kinds_of_local(q["l"], depth + 1, under_or)
+            t = b.term_of_rvalue(rv)
+            if self_path(peel(t)) == [other[field]]:
+                return [("fallback", bi)]
+            pt = peel(t)
+            if under_or and pt[0] == "adt" and pt[1] == "std::option::Option" and pt[2] == "None":
+                return [("none", bi)]          # `None.or(other)` is the other candidate
+            if is_some_of_inner(b, bi, t):
+                return [("inner", bi)]
+            return [("bad", tstr(t)[:70])]
+
+        def kinds_of_local(l, depth, under_or):
+            out = []
+            for (dbi, si, kind, payload) in b.defs().get(l, []):
+                if kind == "assign":
+                    out.extend(kinds_of_rvalue(dbi, payload, depth, under_or))
+                elif kind == "call" and callee_name(payload).split("::")[-1] == "or" and callee_name(payload).startswith("std::option::Option") and \
+                        len(payload["args"]) == 2 and self_path(peel(b.term_of_operand(payload["args"][1]))) == [other[field]]:
+                    out.append(("fallback", dbi))
+                    out.extend(k for k in kinds_of_rvalue(dbi, {"r": "use", "o": payload["args"][0]}, depth, True) if k[0] == "bad")
+                else:
+                    t = b.term_of_rvalue(payload) if kind == "assign" else (b.term_of_call(payload) if kind == "call" else ("partial", l))
+                    if kind == "call" and is_some_of_inner(b, dbi, t):
+                        out.append(("inner", dbi))
+                    else:
+                        out.append(("bad", tstr(t)[:70]))
+            return out or [("bad", "undefined local _%d" % l)]
+
         stores = []
         for bi, si, st in b.stmts():
             if st["s"] == "assign" and st["lhs"]["p"]:
                 path = self_path(b.term_of_place(st["lhs"]))
                 if path == [field]:
-                    stores.append((bi, b.term_of_rvalue(st["rv"])))
+                    stores.append((bi, kinds_of_rvalue(bi, st["rv"], 0, False)))
         if not stores:
             raise Undecided("anchor lost: %s does not store to .%s" % (fn, field))
-        fb = [bi for bi, t in stores if self_path(peel(t)) == [other[field]]]
-        bad = [tstr(t)[:70] for bi, t in stores if self_path(peel(t)) != [other[field]] and not is_some_of_inner(b, bi, t)]
-        later = all(any(b.dominates(f, bi) for f in fb) for bi, t in stores if bi not in fb)
+        fb = [bi for bi, ks in stores if any(k[0] == "fallback" for k in ks)]
+        bad = [k[1] for bi, ks in stores for k in ks if k[0] == "bad"]
+        later = all(any(b.dominates(f, bi) for f in fb) for bi, ks in stores if bi not in fb)
         ctx.ob("C10.R6.candidate-falls-back", "%s|%s%s" % (fn, field, tag), where, bool(fb) and not bad and later, "value-provenance",
                "consuming `%s` first takes over `%s`, then prefers an item of the inner iterator: take-over %s, dominates the search %s; other values %s" % (
                    field, other[field], bool(fb), later, bad))
